@@ -26,11 +26,11 @@ func cpuSeconds() float64 {
 
 // callResult is the outcome of a guarded call.
 type callResult struct {
-	SQL      string
-	Err      error
-	Panic    string // non-empty: the call panicked (value and stack)
-	Hung     bool   // the call burnt hangCPUSeconds of CPU without returning
-	Inconcl  bool   // wall-clock limit hit without enough CPU burnt: no verdict
+	SQL     string
+	Err     error
+	Panic   string // non-empty: the call panicked (value and stack)
+	Hung    bool   // the call burnt hangCPUSeconds of CPU without returning
+	Inconcl bool   // wall-clock limit hit without enough CPU burnt: no verdict
 }
 
 // guarded runs f in a goroutine and watches the process's CPU clock. A call
